@@ -244,6 +244,21 @@ check("C07",
       "TLA+ exact definitions (C07_Quantities) with invariance theorems model-checked (C07_MC); TLC trace validation of exact surrogates (C07_Trace)",
       "DESIGN.md 6.7")
 
+check("C08",
+      "TLC checks on planar lattice triangulations (C08_MC) that the exact stiffness matrix is symmetric with zero row sums, that "
+      "Re(G* A G) equals it entry for entry (exact rationals), that the gradient of an affine function is its constant gradient in every "
+      "face, that vertex / edge / face masses are positive and sum to 3x / 1x / 1x the area, and that the graph and dual Laplacians are "
+      "symmetric with zero row sums. The real operators run with every option on planar lattices, box surfaces, a generic lattice triangle "
+      "pair, quad grids, polylines and Kuhn tetrahedra (and renumbered copies): laplacian (cotan / uniform), graph_laplacian, adjacency (unit / "
+      "length / custom) with the stored-entry count, vertex-edge (oriented or not) and vertex-face incidence, five mass matrices x inverse / "
+      "sqrt, flat gradient entries, Re(G* A G) and |G f|^2 for the library's own face bases (complex and real form), laplacian_triangles "
+      "(cotan / uniform); TLC compares dense copies entrywise with the exact matrices. volume_laplacian, laplacian_tetrahedra and "
+      "laplacian_edges are judged for symmetry and zero row sums.",
+      "Entrywise exactness only where cotangents / areas are rational; the matrix product G* A G is formed in the harness from the "
+      "library's matrices, its comparison with the exact Laplacian is TLC's. Connection Laplacians belong to C18.",
+      "TLA+ exact operators (C08_Operators) with identities model-checked (C08_MC); TLC entrywise trace validation (C08_Trace)",
+      "DESIGN.md 6.8")
+
 ALL = ["C%02d" % i for i in range(1, 21)]
 
 
